@@ -646,6 +646,10 @@ fn read_code<C: CodeVisitor>(
 					opcode::IMPDEP2 => bail!("unknown opcode impdep2"),
 					opcode => bail!("unknown opcode {opcode:x?}"),
 				};
+				// Skipping the operands is a seek, which may move past the end of the bytecode.
+				if r.position() > bytecode.len() as u64 {
+					bail!("the operands of the instruction run past the end of the code, code length is {}", bytecode.len());
+				}
 				Ok(())
 			})()
 				.with_context(|| anyhow!("at bytecode offset {}", opcode_pos))?;
